@@ -200,8 +200,18 @@ func minInt(a, b int) int {
 // highXSig constructs (Q, r, s, hash) whose verification point has x >= N, by key recovery:
 // pick x in [N, P) on the curve, r = x - N, any s and e, Q = r^-1 (sR - eG).
 func (h *H) highXSig() (qx, qy, r, s string, hash []byte, ok bool) {
+	pmn := new(big.Int).Sub(curveP, curveN)
 	for tries := 0; tries < 400; tries++ {
 		off := new(big.Int).SetBytes(h.randBytes(15))
+		if h.rng.Intn(2) == 0 {
+			// r just below p-n: p-n-2^k+delta, exercising every limb of the r < p-n comparison
+			k := uint(1 + h.rng.Intn(126))
+			off = new(big.Int).Sub(pmn, new(big.Int).Lsh(big.NewInt(1), k))
+			off.Add(off, new(big.Int).SetBytes(h.randBytes(int(k/8)+1)).Rsh(new(big.Int).SetBytes(h.randBytes(int(k/8)+1)), 9))
+			if off.Sign() <= 0 || off.Cmp(pmn) >= 0 {
+				continue
+			}
+		}
 		x := new(big.Int).Add(curveN, off)
 		if x.Cmp(curveP) >= 0 {
 			continue
@@ -269,7 +279,7 @@ func genC02(h *H) {
 		h.do("identity-point", "verify", hx(be32(e)), qx, qy, rs, ss)
 	}
 	// nonce x >= N constructed by key recovery; plus its near misses (r+1, guard boundary)
-	for i := 0; i < 4*h.budget; i++ {
+	for i := 0; i < 12*h.budget; i++ {
 		qx, qy, r, s, hash, ok := h.highXSig()
 		if !ok {
 			continue
